@@ -110,7 +110,9 @@ func c15Unconditional(c *Ctx, prop string) {
 		n[callee.Name()]++
 		bad := ""
 		for _, f := range factsAt(ci.Block()) {
-			if backSlice(f.V, nil)[dbv] {
+			// control-aware for boolean phis: `a && b` and a helper's boolean result seen inline depend on every
+			// condition that selects the phi's edge
+			if backSliceCtlBool(f.V)[dbv] {
 				bad = describeValue(f.V)
 			}
 		}
